@@ -148,7 +148,7 @@ def load_strictness(ctx, rep, rule: str) -> None:
     repo = ctx.repo
     load = repo.method(DS, "load_distributed_state_dict")
     up = repo.func(f"{CKPT_MOD}:update_param_state_dict_object")
-    om_load = next(iter(repo.cls(OM).methods["load_state_dict"].inner.values()))
+    om_load = A.worker(repo, repo.cls(OM).methods["load_state_dict"])
     n = 0
     for fi in (load, up, om_load):
         cfg = CFG(fi.node)
@@ -187,7 +187,8 @@ def load_strictness(ctx, rep, rule: str) -> None:
             rep.ob(rule, f"no-early-exit:{short(fi.qual)}:for-{it}", not early, fi.loc(loop), f"the loop over `{it}` must visit every entry (exits: raise / continue only); found {[type(s).__name__ + '@' + str(s.lineno) for s in early]}" + (" — the remaining entries would be left at their initial values" if early else ""), sample=True)
     rep.floor(rule, "load-path membership tests / loops", n, 8)
     # group count mismatch raises ValueError
-    cnt = [t for t in A.walk_no_nested(load.node) if isinstance(t, ast.If) and "len(param_groups)" in _norm(t.test) and "!=" in _norm(t.test)]
+    want_atom = A.atom_key(ast.parse("len(self.param_groups) == len(state_dict['param_groups'])", mode="eval").body)[0]
+    cnt = [t for t in A.walk_no_nested(load.node) if isinstance(t, ast.If) and A.atom_key(ast.parse(A.expanded(load.node, t.test), mode="eval").body) == (want_atom, False)]
     ok = len(cnt) == 1 and any(isinstance(s, ast.Raise) and "ValueError" in _norm(s) for s in cnt[0].body)
     rep.ob(rule, "group-count-mismatch-raises", ok, load.loc(cnt[0]) if cnt else load.loc(), "a different number of param groups raises ValueError")
 
@@ -222,10 +223,21 @@ def group_fields(ctx, rep, rule: str) -> None:
     ok = len(comps) == 1 and [_norm(c) for c in comps[0].generators[0].ifs] == ["k != PARAMS"] and _norm(comps[0].key) == "k" and "deepcopy(v)" in _norm(comps[0].value)
     rep.ob(rule, "all-group-fields-saved", ok, sd.loc(), "every field of a param group except PARAMS is saved (deep-copied)", sample=True)
     ld = repo.method(DS, "load_distributed_state_dict")
-    asg = [n for n in A.walk_no_nested(ld.node) if isinstance(n, ast.Assign) and _norm(n.targets[0]) == "group[key]"]
-    ok = len(asg) == 1 and "deepcopy(value)" in _norm(asg[0].value)
-    loops = A.enclosing_loops(ld.node, asg[0]) if asg else []
-    ok = ok and len(loops) == 2 and "param_group_to_load.items()" in _norm(loops[-1].iter)
+    # `for g in self.param_groups: ... for k, v in <saved groups>[<key of g>].items(): g[k] = deepcopy(v)` — names are free
+    asg = []
+    for n in A.walk_no_nested(ld.node):
+        if isinstance(n, ast.Assign) and isinstance(n.targets[0], ast.Subscript) and isinstance(n.targets[0].value, ast.Name):
+            loops = A.enclosing_loops(ld.node, n)
+            if len(loops) == 2 and isinstance(loops[0].target, ast.Name) and loops[0].target.id == n.targets[0].value.id and A.expanded(ld.node, loops[0].iter) == "self.param_groups":
+                asg.append((n, loops))
+    ok = len(asg) == 1
+    if ok:
+        n, loops = asg[0]
+        tg = loops[1].target
+        kv = [x.id for x in tg.elts] if isinstance(tg, ast.Tuple) and len(tg.elts) == 2 and all(isinstance(x, ast.Name) for x in tg.elts) else [None, None]
+        src = A.expanded(ld.node, loops[1].iter)
+        ok = _norm(n.targets[0].slice) == kv[0] and _norm(n.value) == f"deepcopy({kv[1]})" and src.startswith("state_dict['param_groups'][") and src.endswith("].items()")
+    asg = [a for a, _ in asg]
     rep.ob(rule, "all-saved-group-fields-restored", ok, ld.loc(asg[0]) if asg else ld.loc(), "every saved field of the matching group is restored into the optimizer's group")
     # state saved for every parameter through extract + flatten
     comps = [n for n in ast.walk(sd.node) if isinstance(n, ast.DictComp) and "self.state.items()" in _norm(n)]
